@@ -255,16 +255,27 @@ func laExec(r *core.Run, c laCase) (*core.Fail, string) {
 	var dst *tensor.Dense
 	var dstOld []interface{}
 	nOut := len(want.El)
+	if invalid && c.mode != "safe" {
+		return nil, "skip:no-defined-result"
+	}
 	if c.mode != "safe" {
 		dstOld = make([]interface{}, nOut)
 		for i := range dstOld {
 			dstOld[i] = d.Code(i%4 + 1)
 		}
 		dst = mkContig(d, want.Shape, dstOld)
+		if strings.HasSuffix(c.mode, ":T") {
+			// a lazily transposed destination
+			db, err := atlas.Build(d, want.Shape, dstOld, "T")
+			if err != nil {
+				return nil, "skip:dest"
+			}
+			dst = db.T
+		}
 		switch c.mode {
-		case "reuse":
+		case "reuse", "reuse:T":
 			opts = append(opts, tensor.WithReuse(dst))
-		case "incr":
+		case "incr", "incr:T":
 			opts = append(opts, tensor.WithIncr(dst))
 		case "reuse+incr":
 			r2 := mkContig(d, want.Shape, dstOld)
@@ -378,7 +389,7 @@ func laExec(r *core.Run, c laCase) (*core.Fail, string) {
 	if c.mode != "safe" && c.mode != "reuse+incr" && res != dst {
 		return core.F("retval-identity", "id", "%s must return the destination tensor", what), o.Class
 	}
-	if c.mode == "incr" || c.mode == "reuse+incr" {
+	if strings.HasPrefix(c.mode, "incr") || c.mode == "reuse+incr" {
 		for i := range want.El {
 			want.El[i] = ref.Arith("Add", dstOld[i], want.El[i]).V
 		}
@@ -424,7 +435,7 @@ func runC09(r *core.Run) {
 	quick := isQuick(r)
 	maxd := 3
 	dts := ref.FC4
-	modes := []string{"safe", "reuse", "incr", "reuse+incr"}
+	modes := []string{"safe", "reuse", "incr", "reuse+incr", "reuse:T", "incr:T"}
 	lays := atlas.L5
 	vss := []string{"int", "frac"}
 	r.SetBound("dims", fmt.Sprintf("every dimension in 1..%d; rank-3 tensors for TensorMul/Dot", maxd))
